@@ -53,7 +53,14 @@ func (f *Field[T]) inversePreCond(a, _ *Element[T]) (nextOverflow uint, err erro
 	if err != nil {
 		return mulOf, err
 	}
-	return f.subPreCond(&Element[T]{overflow: 0}, &Element[T]{overflow: mulOf})
+	nextOverflow, err = f.subPreCond(&Element[T]{overflow: 0}, &Element[T]{overflow: mulOf})
+	var target overflowError
+	if errors.As(err, &target) {
+		// a is the only operand: it is the one to reduce (there is no right side)
+		target.reduceRight = false
+		err = target
+	}
+	return nextOverflow, err
 }
 
 func (f *Field[T]) inverse(a, _ *Element[T], _ uint) *Element[T] {
